@@ -2,14 +2,17 @@
    Only statements; proofs live in Proof/P_BufFmt.v.  Model: Model/M_BufFmt.v
    (check fx s ti itemsize: fx = fx_none is Buffer.c as it is, fx_all the proposed repairs).
 
-   FULL STATEMENT (not proved here, only tested by the correspondence run on ~1500/20000 generated
-   token lists per tier against the extracted [spec_accept]):
+   FULL STATEMENT:
      forall fx f ti isz, in_fragment f -> flat ti ->
        check fx (render f) ti isz = Ok tt <-> spec_accept f ti isz = true
    where in_fragment = every repeat count between 1 and INT_MAX, names without colon.
-   Proved below: the one-item corner of it (_partial), and the safety theorems for ALL byte strings. *)
-From Coq Require Import ZArith List Bool.
-From CyVerif Require Import Lib.CInt Model.M_BufFmt Proof.P_BufFmt.
+   Proved below: for every PLAIN token list (FPlain: byte-order switches, whitespace, :names:, pads and
+   items with ARBITRARY counts written with any digits) = C17_accept_iff_layout_counts, together with
+   the number parser on every decimal numeral (C17_parse_number_decimal); the safety theorems for ALL
+   byte strings.  Still only tested (extracted [spec_accept] vs implementation vs struct oracle):
+   formats wrapped in one T{} record (FRec), sub-array members / s, p / (N,M) shapes. *)
+From Coq Require Import ZArith List Bool Lia.
+From CyVerif Require Import Lib.CInt Model.M_BufFmt Proof.P_BufFmt Proof.P_BufFmtCount.
 Import ListNotations.
 Open Scope Z_scope.
 
@@ -65,6 +68,64 @@ Theorem C17_count_no_overflow : forall d ds rest,
   (INT_MAX < dval 0 (d :: ds) -> parse_number (d :: ds ++ rest) = IntOvf).
 Proof. exact count_no_overflow. Qed.
 Print Assumptions C17_count_no_overflow.
+
+(* the number parser on EVERY decimal numeral: for every n that fits a C int (any number of digits,
+   every digit in every position), written canonically with k >= 0 leading zeros and followed by
+   anything that does not start with a digit, __Pyx_BufFmt_ParseNumber returns exactly n and leaves
+   exactly the rest; beyond INT_MAX it overflows *)
+Theorem C17_parse_number_decimal : forall n k rest,
+  0 <= n <= INT_MAX -> no_digit_head rest ->
+  parse_number (repeat 48 k ++ decimal n ++ rest) = Ok (Some (n, rest)).
+Proof. exact parse_number_decimal. Qed.
+Print Assumptions C17_parse_number_decimal.
+
+Theorem C17_parse_number_decimal_overflow : forall n k rest,
+  INT_MAX < n -> no_digit_head rest -> parse_number (repeat 48 k ++ decimal n ++ rest) = IntOvf.
+Proof. exact parse_number_decimal_overflow. Qed.
+Print Assumptions C17_parse_number_decimal_overflow.
+
+(* decimal numerals are counts of the fragment below and denote n in the spec *)
+Theorem C17_decimal_counts_in_fragment : forall n k t,
+  (1 <= n <= INT_MAX -> tok_ok (TItem (repeat 48 k ++ decimal n) t)) /\
+  (0 <= n <= INT_MAX -> tok_ok (TPad (repeat 48 k ++ decimal n))) /\
+  (0 <= n -> count_of (repeat 48 k ++ decimal n) = n).
+Proof.
+  intros n k t. split; [apply decimal_item_ok|]. split; [apply decimal_pad_ok|].
+  intros H. exact (proj1 (proj2 (proj2 (decimal_count n k H)))).
+Qed.
+Print Assumptions C17_decimal_counts_in_fragment.
+
+(* accept <-> layout for ALL plain token lists: items of all 18 codes with any repeat count
+   1..INT_MAX, pads with any count 0..INT_MAX (counts written with any digit string, leading zeros
+   included), byte-order/size switches (big-endian ones included: rejected), whitespace, :names:,
+   against EVERY flat type info (any number of members, any offsets) -- for the code as it is and
+   every repaired variant.  The checker (character-level __Pyx_BufFmt_CheckString with its pooling
+   of equal codes, lazy chunk processing and per-member loop) accepts exactly when the
+   struct-module layout of the tokens equals the declared members and the item size agrees *)
+Theorem C17_accept_iff_layout_counts : forall fx toks ti isz,
+  Forall tok_ok toks -> flat_wf (ti_fields ti) ->
+  (check fx (render (FPlain toks)) ti isz = Ok tt <-> spec_accept (FPlain toks) ti isz = true).
+Proof. exact accept_iff_layout_counts. Qed.
+Print Assumptions C17_accept_iff_layout_counts.
+
+Example C17_counts_nonvacuous :
+  decimal 19 = [49; 57] /\ decimal 109 = [49; 48; 57] /\ decimal 2147483647 = [50; 49; 52; 55; 52; 56; 51; 54; 52; 55] /\
+  parse_number (decimal 19 ++ [115]) = Ok (Some (19, [115])) /\
+  Forall tok_ok [TItem (decimal 19) Cb; TPad (decimal 9); TItem [] Ci] /\
+  flat_wf (ti_fields (run_ti 73 1 199)) /\
+  check fx_none (render (FPlain [TItem (decimal 19) Cb; TItem (decimal 180) Cb])) (run_ti 73 1 199) 199 = Ok tt /\
+  check fx_none (render (FPlain [TItem (decimal 9) Cb; TItem (decimal 180) Cb])) (run_ti 73 1 199) 199 = Err.
+Proof.
+  split; [vm_compute; reflexivity|]. split; [vm_compute; reflexivity|]. split; [vm_compute; reflexivity|].
+  split; [vm_compute; reflexivity|].
+  split.
+  { constructor; [exact (decimal_item_ok 19 0 Cb ltac:(unfold INT_MAX; lia))|].
+    constructor; [exact (decimal_pad_ok 9 0 ltac:(unfold INT_MAX; lia))|].
+    constructor; [|constructor]. split; [constructor|left; reflexivity]. }
+  split.
+  { apply run_ti_wf; cbn [In]; auto; try lia; try discriminate; intros [H|H]; discriminate. }
+  split; vm_compute; reflexivity.
+Qed.
 
 Example C17_nonvacuous :
   digits [50; 49] /\ no_digit_head [105] /\ parse_number [50; 49; 105] = Ok (Some (21, [105])) /\
